@@ -336,14 +336,22 @@ def qasm_def_cursor(ctx: Ctx, rep: Report) -> int:
     rep.ok(C, 'CircuitGate.get_qasm_gate_def:order', f.path, lp.lineno,
            'walks the inner circuit in default order')
     body = g.in_loop_body(lp)
-    adv = [x for x in g.nodes if x.id in body and isinstance(
-        x.stmt, ast.AugAssign) and isinstance(x.stmt.op, ast.Add)
-        and norm(x.stmt.target) == 'param_index'
-        and norm(x.stmt.value) in WIDTHS]
+    sums = {f'param_index + {w}' for w in WIDTHS}
+
+    def _val(x, e) -> str:
+        return norm(valnum.subst(ctx, f, x, e))
+    adv = [x for x in g.nodes if x.id in body and (
+        (isinstance(x.stmt, ast.AugAssign) and isinstance(x.stmt.op, ast.Add)
+         and norm(x.stmt.target) == 'param_index'
+         and norm(x.stmt.value) in WIDTHS)
+        # or spelled `i = i + W`, possibly through a temporary
+        or (isinstance(x.stmt, ast.Assign) and x.kind == 'stmt'
+            and norm(x.stmt.targets[0]) == 'param_index'
+            and _val(x, x.stmt.value) in sums))]
     reads = [x for x in g.nodes if x.id in body and x not in adv and any(
         isinstance(s, ast.Call) and norm(s.func) == 'range'
         and len(s.args) == 2 and norm(s.args[0]) == 'param_index'
-        and norm(s.args[1]) in {f'param_index + {w}' for w in WIDTHS}
+        and _val(x, s.args[1]) in sums
         for s in x.walk())]
     init = [d for d in ctx.rd(f).reaching(lp, 'param_index')
             if d.node.id not in body]
